@@ -141,7 +141,7 @@ def make_faultnet():
     class FaultNet(Network):
         """vlan.Network with a per-frame policy:
              policy(index, pdu) -> "ok" | "drop" | "dup" | ("delay", seconds)
-           every frame seen is appended to .log as (index, src, dst, bytes, action)"""
+           every frame seen is appended to .log as (index, src, dst, bytes, action, virtual time)"""
 
         def __init__(self, *a, policy=None, **kw):
             Network.__init__(self, *a, **kw)
@@ -153,7 +153,7 @@ def make_faultnet():
             i = self.index
             self.index += 1
             action = self.policy(i, pdu) if self.policy else "ok"
-            self.log.append((i, pdu.pduSource, pdu.pduDestination, bytes(pdu.pduData), action))
+            self.log.append((i, pdu.pduSource, pdu.pduDestination, bytes(pdu.pduData), action, VT._inst.now if VT._inst else None))
             if action == "drop":
                 return
             if action == "dup":
